@@ -28,6 +28,21 @@ STRATA = {
     "mixed_hist": (3000, 90000),
     "no_bonds_dups": (2000, 60000),
 }
+# functions that must leave their arguments untouched (vf.core.PurityMonitor; '!' = the object itself is watched too)
+PURE = [
+    "biotite.structure.atoms:concatenate",
+    "biotite.structure.atoms:stack",
+    "biotite.structure.atoms:repeat",
+    "biotite.structure.atoms:from_template",
+    "biotite.structure.atoms:AtomArray.__getitem__!",
+    "biotite.structure.atoms:AtomArrayStack.__getitem__!",
+    "biotite.structure.atoms:AtomArrayStack.get_array!",
+    "biotite.structure.atoms:AtomArray.get_atom!",
+    "biotite.structure.atoms:AtomArrayStack.__setitem__",
+    "biotite.copyable:Copyable.copy!",
+    "biotite.structure.atoms:_AtomArrayBase.equal_annotations!",
+    "biotite.structure.atoms:_AtomArrayBase.__eq__!",
+]
 REQUIRED_ORACLES = ["fields_vs_model", "eq_vs_rebuilt", "invariant_hook", "copy_independent", "bond_uids"]
 ANCHORS = [
     "biotite.structure.atoms:_AtomArrayBase._subarray",
